@@ -88,9 +88,17 @@ class Emit:
             if p[2] and name != "none":
                 return "(" + name + " " + " ".join(self.pat(x) for x in p[2]) + ")"
             return name
+        if k == "pstruct":
+            order = self.cfg.get("structpat", {}).get(p[1][-1])
+            if order is None:
+                raise Unsupported("struct pattern " + p[1][-1])
+            d = dict(p[2])
+            return "⟨" + ", ".join(self.pat(d[f]) if f in d else "_" for f in order) + "⟩"
         raise Unsupported("pattern " + k)
 
     def pvars(self, p):
+        if p[0] == "pstruct":
+            return set().union(*[self.pvars(x) for _, x in p[2]]) if p[2] else set()
         if p[0] == "pvar":
             return {p[1]}
         if p[0] in ("ptuple",):
@@ -130,8 +138,8 @@ class Emit:
                     parts.append("let %s := %s" % (self.pat(pat), self.e(e)))
             elif s[0] == "expr":
                 x = s[1]
-                if x[0] == "macro" and x[1] in ("assert", "debug_assert", "assert_eq"):
-                    continue                                   # preconditions: stated in the tie theorem
+                if x[0] == "macro" and x[1] in ("assert", "debug_assert", "assert_eq", "debug", "trace"):
+                    continue                                   # preconditions: stated in the tie theorem; logging: no effect on values
                 if x[0] == "macro" and x[1] in self.cfg.get("macro", {}) and s is stmts[-1] and tail is None:
                     tail = x                                   # diverging macro in value position
                     continue
@@ -203,7 +211,13 @@ class Emit:
             if name not in self.method:
                 raise Unsupported("method ." + name + "()")
             args = [self.atom(x[1])] + [self.atom(a) for a in x[3]]
-            return "(" + self.method[key].format(*args) + ")"
+            tmpl = self.method[key]
+            if isinstance(tmpl, list):                     # one template per occurrence, in source order (receivers are emitted first)
+                self.occ = getattr(self, "occ", {})
+                i = self.occ.get(key, 0)
+                self.occ[key] = i + 1
+                tmpl = tmpl[min(i, len(tmpl) - 1)]
+            return "(" + tmpl.format(*args) + ")"
         if k == "call":
             f = x[1]
             if f[0] != "path":
@@ -285,6 +299,8 @@ class Emit:
                 add(self.lhs_name(x[1]))
             elif x[0] == "assign" and x[1][0] == "index" and self.lhs_name(x[1][1]) is not None:
                 add(self.lhs_name(x[1][1]))
+            elif x[0] == "assign" and x[1][0] == "field" and x[1][1][0] == "path" and x[1][1][1][0] in self.cfg.get("recordvars", ()):
+                add(ident(x[1][1][1][0]))
             elif x[0] == "mcall" and (x[2] in ("push", "pop", "push_back", "pop_front") or x[2] in self.cfg.get("mutmethods", {})) \
                     and self.lhs_name(x[1]) is not None:
                 add(self.lhs_name(x[1]))
@@ -357,10 +373,21 @@ class Emit:
                 and self.lhs_name(x[1][1]) is not None:                        # `m[(i, j)] = v`
             v = self.lhs_name(x[1][1])
             return "let %s := (setEntry %s %s %s %s);\n    %s" % (v, v, self.atom(x[1][2][1][0]), self.atom(x[1][2][1][1]), self.atom(x[2]), tailstr())
-        if x[0] == "macro" and x[1] in ("assert", "debug_assert", "assert_eq"):
+        if x[0] == "macro" and x[1] in ("assert", "debug_assert", "assert_eq", "debug", "trace"):
             return tailstr()
         if x[0] == "assign" and self.lhs_name(x[1]) is not None:
             return "let %s := %s;\n    %s" % (self.lhs_name(x[1]), self.e(x[2]), tailstr())
+        if x[0] == "assign" and x[1][0] == "field" and x[1][1][0] == "path" and x[1][1][1][0] in self.cfg.get("recordvars", ()):
+            v = ident(x[1][1][1][0])                       # `c.field = e` on a record held in a local
+            return "let %s := { %s with %s := %s };\n    %s" % (v, v, self.field.get(x[1][2], x[1][2]), self.e(x[2]), tailstr())
+        if x[0] == "for" and x[1][0] == "pvar" and x[1][1] in self.cfg.get("recordvars", ()) and self.lhs_name(x[2]) is not None:
+            # `for c in &mut v { ... }`: the elements are rebuilt in order; other mutable places are carried along
+            V, c = self.lhs_name(x[2]), ident(x[1][1])
+            body = self.as_stmts(x[3])
+            w = [n for n in self.assigned(body) if n != c]
+            st = self.tup(["__acc"] + w)
+            return "let %s := (List.foldl (fun %s %s => (%s)) %s %s);\n    %s" % (
+                self.tup([V] + w), st, c, self.imp(body, self.tup(["(__acc ++ [%s])" % c] + w)), self.tup(["[]"] + w), V, tailstr())
         if x[0] == "assign" and x[1][0] == "index" and self.lhs_name(x[1][1]) is not None:      # `v[i] = e`
             v = self.lhs_name(x[1][1])
             return "let %s := (List.set %s %s %s);\n    %s" % (v, v, self.atom(x[1][2]), self.atom(x[2]), tailstr())
@@ -455,6 +482,45 @@ class Emit:
             return any(self.has_return(y) for y in x)
         return False
 
+    def assigns_any(self, x):
+        out = set()
+        def go(y):
+            if isinstance(y, tuple):
+                if y and y[0] == "assign":
+                    n = self.lhs_name(y[1])
+                    if n:
+                        out.add(n)
+                for z in y:
+                    go(z)
+            elif isinstance(y, list):
+                for z in y:
+                    go(z)
+        go(x)
+        return out
+
+    def hoist_filter(self, e):
+        """a `.filter(<closure that assigns captured variables>)` inside an iterator chain: (receiver, closure, rebuild(new receiver expr))"""
+        chain, cur = [], e
+        while cur[0] == "mcall":
+            if cur[2] == "filter" and len(cur[3]) == 1 and cur[3][0][0] == "closure" and self.assigns_any(cur[3][0][2]):
+                def rebuild(newrecv, chain=list(chain)):
+                    r = newrecv
+                    for name, args in reversed(chain):
+                        r = ("mcall", r, name, args)
+                    return r
+                captured = sorted(self.assigns_any(cur[3][0][2]))
+                # laziness: the stages between this filter and the end of the chain must not read the captured variables
+                # before the chain is consumed; we accept the chain only if the very next stages up to a consuming adaptor do not mention them
+                for name, args in reversed(chain):
+                    if name in self.cfg.get("consumers", ("into_group_map", "collect", "sum", "count", "fold")):
+                        break
+                    if any(v in self.free(args) for v in captured):
+                        raise Unsupported("a lazy stage reads a variable the stateful filter assigns")
+                return cur[1], cur[3][0], captured, rebuild
+            chain.append((cur[2], cur[3]))
+            cur = cur[1]
+        return None
+
     def getmut(self, e):
         """`V.get_mut(&k)` on a map place of the configuration (optionally `.unwrap()`): (V, key text, unwrapped)"""
         unw = False
@@ -475,6 +541,13 @@ class Emit:
             return self.cps_tail(tail, K, borrows, optb)
         s, rest = stmts[0], stmts[1:]
         cont = lambda b=borrows, o=optb: self.cps(rest, tail, K, b, o)
+        if s[0] == "let" and self.hoist_filter(s[2]) is not None:
+            recv, clo, capt, rebuild = self.hoist_filter(s[2])
+            cv = self.tup(capt)
+            body = self.cps_tail(clo[2], lambda v: "(%s, %s)" % (v, cv), {}, {})
+            pre = ("let (%s, __flt) := (List.foldl (fun ((%s, __acc) : _ × List _) __it => (match __it with\n    | %s => (let (__keep, %s) := (%s);\n    (%s, if __keep then __acc ++ [__it] else __acc)))) (%s, []) %s);\n    "
+                   % (cv, cv, self.pat(clo[1][0]), cv, body, cv, cv, self.atom(recv)))
+            return pre + self.cps([("let", s[1], rebuild(("path", ["__flt"]))) + tuple(s[3:])] + rest, tail, K, borrows, optb)
         if s[0] == "let":
             pat, e = s[1], s[2]
             gm = self.getmut(e)
@@ -512,13 +585,21 @@ class Emit:
                 return "let %s := %s;\n    %s" % (ident(pat[1]), self.lhs_name(e[1]), cont())
             return "let %s := %s;\n    %s" % (self.pat(pat), self.e(e), cont())
         x = s[1]
-        if x[0] == "macro" and x[1] in ("assert", "debug_assert", "assert_eq"):
+        if x[0] == "macro" and x[1] in ("assert", "debug_assert", "assert_eq", "debug", "trace"):
             return cont()
         if x[0] == "return":
             return self.ret(self.e(x[1]))
         if x[0] == "try" and rest and rest[0][0] == "expr" and rest[0][1][0] == "macro" and rest[0][1][1] == "unreachable":
             # `res?; unreachable!()` under `if res.is_err()`: the function returns `res`
             return self.ret(self.cfg.get("errcast", "{0}").format(self.e(x[1])))
+        if x[0] == "for" and x[2][0] == "mcall" and x[2][2] == "values_mut" and self.lhs_name(x[2][1]) is not None and x[1][0] == "pvar":
+            # `for v in map.values_mut() { ... }`: every value is replaced by what the body makes of it
+            V, y = self.lhs_name(x[2][1]), ident(x[1][1])
+            return "let %s := (List.map (fun ((__k, %s) : _ × _) => (__k, (%s))) %s);\n    %s" % (V, y, self.imp(self.as_stmts(x[3]), y), V, cont())
+        if x[0] == "for" and not self.has_return(x) and "state" in self.cfg and any(self.uses_borrow(t[1], optb) for t in self.as_stmts(x[3]) if t[0] == "expr" and t[1][0] in ("iflet", "match")):
+            st = "(" + ", ".join(self.cfg["state"]) + ")" if len(self.cfg["state"]) > 1 else self.cfg["state"][0]
+            body = self.cps(self.as_stmts(x[3]), None, lambda v: st, borrows, optb)
+            return "let %s := (List.foldl (fun %s %s => (%s)) %s %s);\n    %s" % (st, st, self.pat(x[1]), body, st, self.atom(x[2]), cont())
         if x[0] == "for" and self.has_return(x):
             # a loop that can return: a fold over `Sum (returned value) (mutable places)`; an iteration that follows a return does nothing
             st = "(" + ", ".join(self.cfg["state"]) + ")"
@@ -814,6 +895,30 @@ TRACK = [
          mutmethods={"send": "{0} + 1", "insert": "dbSet {0} {1} {2}", "extend": "{0} ++ {1}"},
          call={"Ok": "Except.ok {0}", "Some": "some {0}"}),
 ]
+
+VOTE_METHOD = {"into_iter": "{0}", "iter": "{0}", "filter": "List.filter {1} {0}", "map": "List.map {1} {0}", "collect": "{0}", "unwrap": "optUnwrap {0}",
+               "into_group_map": "order (groupMap {0})", "len": "List.length {0}", "sum": "lsumQ {0}", "partial_cmp": "(some (cmpQ {0} {1}))"}
+VOTING = [
+    dict(group="Voting", name="topn_winners", file="track/voting/topn.rs", impl=r"impl<OA> Voting<OA> for TopNVoting<OA>\s*where[^{]*\{", fn="winners",
+         cps=True, imperative=True, state=["results"],
+         sig="(order : List ((Nat × Nat) × List Rat) → List ((Nat × Nat) × List Rat)) (topn : Nat) (max_distance : Rat) (min_votes : Nat) (distances : List Voting.Dist) : List (Nat × List Voting.Elt)",
+         ret="{0}", fieldpath={"self.max_distance": "max_distance", "self.min_votes": "min_votes", "self.topn": "topn"},
+         field={"query_track": "q", "winner_track": "w"},
+         structpat={"ObservationMetricOk": ["from", "to", "feature_distance"]},
+         struct={"TopNVotingElt": ("Voting.Elt", {"query_track": "q", "winner_track": "w", "weight": "weight"})},
+         method=VOTE_METHOD, call={"HashMap::new": "([] : List (Nat × List Voting.Elt))", "Some": "some {0}"},
+         mutmethods={"insert": "mapSet {0} {1} {2}", "sort_by": "List.mergeSort {0} (fun a b => ({1} a b) != Ordering.gt)", "truncate": "List.take {1} {0}"}),
+    dict(group="Voting", name="bestfit_winners", file="track/voting/best.rs", impl=r"impl<OA> Voting<OA> for BestFitVoting<OA>\s*where[^{]*\{", fn="winners",
+         cps=True, imperative=True, recordvars=("c",),
+         sig="(order : List ((Nat × Nat) × List Rat) → List ((Nat × Nat) × List Rat)) (max_distance : Rat) (min_votes : Nat) (distances : List Voting.Dist) : List (Nat × List Voting.Elt)",
+         ret="{0}", fieldpath={"self.max_distance": "max_distance", "self.min_votes": "min_votes"},
+         field={"query_track": "q", "winner_track": "w"},
+         structpat={"ObservationMetricOk": ["from", "to", "feature_distance"]},
+         struct={"TopNVotingElt": ("Voting.Elt", {"query_track": "q", "winner_track": "w", "weight": "weight"})},
+         method=dict(VOTE_METHOD, into_group_map=["order (groupMap {0})", "groupMapG {0}"], contains="List.contains {0} {1}"),
+         call={"HashSet::new": "([] : List Nat)", "Some": "some {0}"},
+         mutmethods={"insert": "{1} :: {0}", "sort_by": "List.mergeSort {0} (fun a b => ({1} a b) != Ordering.gt)"}),
+]
 # decision kernels over Nat / Rat (no field structure needed)
 GAL_METHOD = {"feature": "featureOf {0}", "attr": "{0}", "as_ref": "{0}", "unwrap": "{0}", "visual_quality": "quality {0}",
                  "partial_cmp": "cmpQ {0} {1}", "len": "List.length {0}", "iter": "{0}", "filter": "List.filter {1} {0}", "count": "List.length {0}"}
@@ -920,7 +1025,7 @@ LOGIC = [
 def gen(repo, cfgs, header, footer):
     out, unread = [header], []
     for c in cfgs:
-        if c in LOGIC or c in TRACK:
+        if c in LOGIC or c in TRACK or c in VOTING:
             c = dict(c, scalar=c.get("scalar", "Rat"))
         path = os.path.join(repo, "src", c["file"])
         try:
@@ -1013,6 +1118,18 @@ def dbSet {β : Type} (obs : List (Nat × β)) (c : Nat) (v : β) : List (Nat ×
   if obs.any (fun p => p.1 == c) then obs.map (fun p => if p.1 == c then (c, v) else p) else obs ++ [(c, v)]
 """
 PRELUDE_OWN = """"""
+PRELUDE_VOTING = """/-- itertools `into_group_map`: the values of every key in stream order; the keys come out of a `HashMap` in an arbitrary
+order, which is the parameter `order` of the generated functions (here: first-appearance order) -/
+def groupMap (l : List ((Nat × Nat) × Rat)) : List ((Nat × Nat) × List Rat) :=
+  (Voting.firsts (l.map (·.1))).map (fun k => (k, Voting.groupOf k l))
+/-- `into_group_map` for any key type, first-appearance order of the keys (a `HashMap` is only ever looked up by key afterwards) -/
+def groupMapG {κ β : Type} [BEq κ] (l : List (κ × β)) : List (κ × List β) :=
+  (Voting.firsts (l.map (·.1))).map (fun k => (k, (l.filter (fun e => e.1 == k)).map (·.2)))
+/-- `Option::unwrap` on a value that is present (the code has just checked it, or it is a comparison of non-NaN floats) -/
+def optUnwrap {α : Type} [Inhabited α] (o : Option α) : α := o.getD default
+/-- `Iterator::sum` -/
+def lsumQ (l : List Rat) : Rat := l.foldl (· + ·) 0
+"""
 PRELUDE_SWAP = """/-- `slice::swap(i, j)` (indices in range: the code pushes an element first) -/
 def listSwap {α : Type} (l : List α) (i j : Nat) : List α :=
   match l[i]?, l[j]? with
@@ -1063,10 +1180,11 @@ def main():
     jobs.append(("KKalmanMat.lean", KALMAN_MAT, HEADER_K % "import SimVerif.Gen.KKalman\nimport Mathlib.Data.Matrix.Mul\nimport Mathlib.Data.Matrix.Diagonal\nimport Mathlib.Data.Fintype.Sum\n" + PRELUDE_MAT, "SimVerif.Gen.K"))
     jobs.append(("KKalmanVec.lean", KALMAN_VEC, "/- GENERATED by translator/kernels.py from /repo/src on every run — do not edit. `Vec2DKalmanFilter`: the point filter applied element by element. -/\nnamespace SimVerif.Gen.K\n", "SimVerif.Gen.K"))
     jobs.append(("LEpoch.lean", [c for c in LOGIC if c["group"] == "Epoch"], HEADER_L + PRELUDE_EPOCH, "SimVerif.Gen.L"))
-    jobs.append(("LEpochDb.lean", [c for c in LOGIC if c["group"] == "EpochDb"], HEADER_L + PRELUDE_MAP, "SimVerif.Gen.L"))
+    jobs.append(("LEpochDb.lean", [c for c in LOGIC if c["group"] == "EpochDb"], "import SimVerif.Gen.LBase\n" + HEADER_L, "SimVerif.Gen.L"))
+    jobs.append(("LVoting.lean", VOTING, "import SimVerif.Gen.LBase\nimport SimVerif.Model.Voting\n" + HEADER_L + PRELUDE_VOTING, "SimVerif.Gen.L"))
     jobs.append(("LTrack.lean", TRACK, HEADER_L + PRELUDE_TRACK, "SimVerif.Gen.L"))
     jobs.append(("LConstr.lean", [c for c in LOGIC if c["group"] == "Constr"], HEADER_L + PRELUDE_DEDUP, "SimVerif.Gen.L"))
-    jobs.append(("LBase.lean", [], HEADER_L + PRELUDE_BASE, "SimVerif.Gen.L"))
+    jobs.append(("LBase.lean", [], HEADER_L + PRELUDE_BASE + PRELUDE_MAP, "SimVerif.Gen.L"))
     jobs.append(("LGallery.lean", [c for c in LOGIC if c["group"] == "Gallery"], "import SimVerif.Gen.LBase\n" + HEADER_L + PRELUDE_SWAP, "SimVerif.Gen.L"))
     jobs.append(("LNms.lean", [c for c in LOGIC if c["group"] == "Nms"], "import SimVerif.Gen.LBase\n" + HEADER_L + PRELUDE_NMS, "SimVerif.Gen.L"))
     jobs.append(("LOwn.lean", [c for c in LOGIC if c["group"] == "Own"], "import SimVerif.Gen.LBase\n" + HEADER_L + PRELUDE_OWN, "SimVerif.Gen.L"))
